@@ -314,6 +314,15 @@ class Driver:
         if op == "setobj":
             self.rx[s["r"] - 1].objective_coefficient = s["k"]
             return {"raises": "none"}
+        if op == "setobjdict":
+            d = {}
+            if s["k"]:
+                d[self.rx[s["r"] - 1]] = s["k"]
+            if s["k2"] and s["r2"] != s["r"]:
+                d[self.rx[s["r2"] - 1]] = s["k2"]
+            self._od = getattr(self, "_od", 0) + 1
+            m.objective = d if (d or self._od % 2) else []      # the empty objective as {} or []
+            return {"raises": "none"}
         if op == "setdir":
             m.objective_direction = s["dir"]
             return {"raises": "none"}
@@ -706,7 +715,7 @@ def run(prop, tier, replay=None):
             cur = m
             for s in beh["steps"]:
                 cases.add(hash((cur, json.dumps(s, sort_keys=True))))
-                if s["op"] in ("setbounds", "setobj", "setdir"):
+                if s["op"] in ("setbounds", "setobj", "setdir", "setobjdict"):
                     cur = cur + json.dumps(s, sort_keys=True)
         if traces:
             samples.append(traces[(len(traces) // 2 + sd) % len(traces)])
